@@ -14,7 +14,10 @@ Algebraic core
 
 End to end (list-level model)
 * `corrected_shape`      result is stored as displacements with the ORIGINAL base positions
-* `first_frame_unchanged`
+* `first_frame_unchanged_partial`  first frame is kept, for frames of whole atoms (`3 ∣ n`); the
+                         statement without `3 ∣ n` is false (`first_frame_unchanged_counterexample`)
+* `corrected_roundtrip`  under `SmallSteps` the displacements re-derived from the corrected
+                         trajectory's wrapped positions are its stored displacements
 * `residual_drift_zero`  after correction the mean per-frame displacement of the reference atoms
                          is zero in every frame (under `SmallSteps`)
 * `idempotent`           correcting again changes nothing (under `SmallSteps`)
@@ -33,22 +36,521 @@ open G G.Traj G.C01
 /-- mean of a list of rationals -/
 def mean (l : List ℚ) : ℚ := l.sum / l.length
 
+theorem sum_map_sub (l : List ℚ) (c : ℚ) : (l.map (· - c)).sum = l.sum - l.length * c := by
+  induction l with
+  | nil => simp
+  | cons a l ih =>
+    simp only [List.map_cons, List.sum_cons, List.length_cons, ih]
+    push_cast
+    ring
+
 /-- **C13 (core)**: subtracting the mean of a non-empty selection from each member leaves a
 selection whose mean is zero. -/
 theorem mean_sub_mean (l : List ℚ) (hne : l ≠ []) : mean (l.map (· - mean l)) = 0 := by
-  sorry
+  have hl : (l.length : ℚ) ≠ 0 := by
+    have : l.length ≠ 0 := fun h => hne (List.eq_nil_of_length_eq_zero h)
+    exact_mod_cast this
+  unfold mean
+  rw [sum_map_sub, List.length_map, mul_div_cancel₀ _ hl, sub_self, zero_div]
+
+theorem rne_shift_small (x : ℚ) (k : ℤ) (h : |x| < 1 / 2) : rne (x + k) = k := by
+  have h1 := abs_sub_rne_le_half (x + k)
+  rw [abs_le] at h1
+  rw [abs_lt] at h
+  have h2 : ((rne (x + k) - k : ℤ) : ℚ) < 1 := by push_cast; linarith
+  have h3 : (-1 : ℚ) < ((rne (x + k) - k : ℤ) : ℚ) := by push_cast; linarith
+  have h2' : rne (x + k) - k < 1 := by exact_mod_cast h2
+  have h3' : -1 < rne (x + k) - k := by exact_mod_cast h3
+  omega
 
 /-- a step smaller than half a cell is its own minimum image … -/
 theorem minImg1_small (x : ℚ) (h : |x| < 1 / 2) : minImg1 x = x := by
-  sorry
+  have hr := rne_shift_small x 0 h
+  rw [Int.cast_zero, add_zero] at hr
+  unfold minImg1
+  rw [hr, Int.cast_zero, sub_zero]
 
 /-- … also when whole cells were added in between (positions are only known modulo 1) -/
 theorem minImg1_small_shift (x : ℚ) (k : ℤ) (h : |x| < 1 / 2) : minImg1 (x + k) = x := by
-  sorry
+  unfold minImg1
+  rw [rne_shift_small x k h]
+  ring
+
+/-! ### sums of 3-vectors -/
+
+theorem foldl_x (vs : List V3) (acc : V3) :
+    (vs.foldl (· + ·) acc).x = acc.x + (vs.map (·.x)).sum := by
+  induction vs generalizing acc with
+  | nil => simp
+  | cons v vs ih =>
+    rw [List.foldl_cons, ih, List.map_cons, List.sum_cons]
+    show (acc.x + v.x) + _ = _
+    ring
+
+theorem foldl_y (vs : List V3) (acc : V3) :
+    (vs.foldl (· + ·) acc).y = acc.y + (vs.map (·.y)).sum := by
+  induction vs generalizing acc with
+  | nil => simp
+  | cons v vs ih =>
+    rw [List.foldl_cons, ih, List.map_cons, List.sum_cons]
+    show (acc.y + v.y) + _ = _
+    ring
+
+theorem foldl_z (vs : List V3) (acc : V3) :
+    (vs.foldl (· + ·) acc).z = acc.z + (vs.map (·.z)).sum := by
+  induction vs generalizing acc with
+  | nil => simp
+  | cons v vs ih =>
+    rw [List.foldl_cons, ih, List.map_cons, List.sum_cons]
+    show (acc.z + v.z) + _ = _
+    ring
+
+/-- componentwise mean of a list of 3-vectors -/
+def meanV (vs : List V3) : V3 := ⟨mean (vs.map (·.x)), mean (vs.map (·.y)), mean (vs.map (·.z))⟩
+
+theorem meanAll_eq (f : Frame) : meanAll f = meanV (toV3s f) := by
+  simp only [meanAll, meanV, mean, foldl_x, foldl_y, foldl_z, List.length_map]
+  simp [V3.zero]
+
+theorem sum_zero (l : List ℚ) (h : ∀ v ∈ l, v = 0) : l.sum = 0 := by
+  induction l with
+  | nil => rfl
+  | cons a l ih =>
+    rw [List.sum_cons, h a (by simp), ih (fun v hv => h v (List.mem_cons_of_mem _ hv)), add_zero]
 
 /-- the drift of frame 0 is zero because the first displacement frame is zero -/
 theorem meanAll_zero (f : Frame) (h : ∀ v ∈ f, v = 0) : meanAll f = V3.zero := by
-  sorry
+  rw [meanAll_eq]
+  have hx : ((toV3s f).map (·.x)).sum = 0 := by
+    apply sum_zero
+    intro v hv
+    obtain ⟨p, hp, rfl⟩ := List.mem_map.mp hv
+    exact h _ (G.C15.mem_toV3s f p hp).1
+  have hy : ((toV3s f).map (·.y)).sum = 0 := by
+    apply sum_zero
+    intro v hv
+    obtain ⟨p, hp, rfl⟩ := List.mem_map.mp hv
+    exact h _ (G.C15.mem_toV3s f p hp).2.1
+  have hz : ((toV3s f).map (·.z)).sum = 0 := by
+    apply sum_zero
+    intro v hv
+    obtain ⟨p, hp, rfl⟩ := List.mem_map.mp hv
+    exact h _ (G.C15.mem_toV3s f p hp).2.2
+  simp only [meanV, mean, hx, hy, hz, zero_div]
+  rfl
+
+theorem meanV_sub_meanV (W : List V3) (hW : W ≠ []) :
+    meanV (W.map (fun v => v - meanV W)) = V3.zero := by
+  have hx : ∀ c : V3, (W.map (fun v => v - c)).map (·.x) = (W.map (·.x)).map (· - c.x) := by
+    intro c; rw [List.map_map, List.map_map]; apply List.map_congr_left; intro v _; rfl
+  have hy : ∀ c : V3, (W.map (fun v => v - c)).map (·.y) = (W.map (·.y)).map (· - c.y) := by
+    intro c; rw [List.map_map, List.map_map]; apply List.map_congr_left; intro v _; rfl
+  have hz : ∀ c : V3, (W.map (fun v => v - c)).map (·.z) = (W.map (·.z)).map (· - c.z) := by
+    intro c; rw [List.map_map, List.map_map]; apply List.map_congr_left; intro v _; rfl
+  have hne : ∀ g : V3 → ℚ, W.map g ≠ [] := by intro g; simpa using hW
+  have e : meanV (W.map (fun v => v - meanV W))
+      = ⟨mean ((W.map (·.x)).map (· - mean (W.map (·.x)))),
+         mean ((W.map (·.y)).map (· - mean (W.map (·.y)))),
+         mean ((W.map (·.z)).map (· - mean (W.map (·.z))))⟩ := by
+    show V3.mk _ _ _ = _
+    rw [hx, hy, hz]
+    rfl
+  rw [e, mean_sub_mean _ (hne _), mean_sub_mean _ (hne _), mean_sub_mean _ (hne _)]
+  rfl
+
+
+/-! ### frames as lists of 3-vectors -/
+
+/-- flatten a list of 3-vectors into a frame (inverse of `toV3s`) -/
+def flat (vs : List V3) : Frame := vs.flatMap V3.toList
+
+theorem flat_nil : flat [] = [] := rfl
+
+theorem flat_cons (v : V3) (vs : List V3) : flat (v :: vs) = v.x :: v.y :: v.z :: flat vs := by
+  simp [flat, V3.toList]
+
+theorem flat_length (vs : List V3) : (flat vs).length = 3 * vs.length := by
+  induction vs with
+  | nil => rfl
+  | cons v vs ih => rw [flat_cons]; simp only [List.length_cons, ih]; omega
+
+theorem toV3s_flat (vs : List V3) : toV3s (flat vs) = vs := by
+  induction vs with
+  | nil => rfl
+  | cons v vs ih => rw [flat_cons, toV3s, ih]
+
+theorem flat_toV3s : ∀ (f : Frame), 3 ∣ f.length → flat (toV3s f) = f
+  | [], _ => rfl
+  | [_], h => by simp at h
+  | [_, _], h => by simp at h
+  | x :: y :: z :: r, h => by
+    have hr : 3 ∣ r.length := by
+      simp only [List.length_cons] at h
+      omega
+    rw [toV3s, flat_cons, flat_toV3s r hr]
+
+theorem exists_flat (f : Frame) (h : 3 ∣ f.length) : ∃ A, f = flat A :=
+  ⟨toV3s f, (flat_toV3s f h).symm⟩
+
+/-- the selected vectors -/
+def sel : List Bool → List V3 → List V3
+  | b :: m, v :: vs => if b then v :: sel m vs else sel m vs
+  | _, _ => []
+
+theorem sel_nil_right (m : List Bool) : sel m [] = [] := by
+  cases m <;> rfl
+
+theorem sel_nil_left (vs : List V3) : sel [] vs = [] := rfl
+
+theorem sel_cons (b : Bool) (m : List Bool) (v : V3) (vs : List V3) :
+    sel (b :: m) (v :: vs) = if b then v :: sel m vs else sel m vs := rfl
+
+theorem maskFrame_eq (m : List Bool) (f : Frame) : maskFrame m f = flat (sel m (toV3s f)) := by
+  unfold maskFrame
+  generalize toV3s f = vs
+  induction vs generalizing m with
+  | nil => simp [sel_nil_right, flat_nil]
+  | cons v vs ih =>
+    cases m with
+    | nil => simp [sel_nil_left, flat_nil]
+    | cons b m =>
+      rw [List.zip_cons_cons, List.flatMap_cons, ih m, sel_cons]
+      cases b
+      · simp
+      · simp [flat_cons, V3.toList]
+
+theorem toV3s_maskFrame (m : List Bool) (f : Frame) : toV3s (maskFrame m f) = sel m (toV3s f) := by
+  rw [maskFrame_eq, toV3s_flat]
+
+/-- componentwise binary operation on 3-vectors -/
+def v3zip (op : ℚ → ℚ → ℚ) (u v : V3) : V3 := ⟨op u.x v.x, op u.y v.y, op u.z v.z⟩
+
+theorem zipWith_flat (op : ℚ → ℚ → ℚ) (a b : List V3) :
+    List.zipWith op (flat a) (flat b) = flat (List.zipWith (v3zip op) a b) := by
+  induction a generalizing b with
+  | nil => simp [flat_nil]
+  | cons u a ih =>
+    cases b with
+    | nil => simp [flat_nil]
+    | cons v b =>
+      rw [List.zipWith_cons_cons, flat_cons, flat_cons, flat_cons]
+      simp only [List.zipWith_cons_cons, ih b]
+      rfl
+
+theorem map_flat (g : ℚ → ℚ) (a : List V3) : (flat a).map g = flat (a.map (V3.map g)) := by
+  induction a with
+  | nil => rfl
+  | cons u a ih =>
+    rw [List.map_cons, flat_cons, flat_cons]
+    simp only [List.map_cons, ih]
+    rfl
+
+theorem sel_map (g : V3 → V3) (m : List Bool) (a : List V3) : sel m (a.map g) = (sel m a).map g := by
+  induction a generalizing m with
+  | nil => simp [sel_nil_right]
+  | cons u a ih =>
+    cases m with
+    | nil => rfl
+    | cons b m =>
+      rw [List.map_cons, sel_cons, sel_cons, ih m]
+      cases b <;> simp
+
+theorem sel_zipWith (g : V3 → V3 → V3) (m : List Bool) (a b : List V3) :
+    sel m (List.zipWith g a b) = List.zipWith g (sel m a) (sel m b) := by
+  induction a generalizing m b with
+  | nil => simp [sel_nil_right]
+  | cons u a ih =>
+    cases b with
+    | nil => simp [sel_nil_right]
+    | cons v b =>
+      cases m with
+      | nil => simp [sel_nil_left]
+      | cons c m =>
+        rw [List.zipWith_cons_cons, sel_cons, sel_cons, sel_cons, ih m b]
+        cases c <;> simp
+
+theorem sel_ne_nil (m : List Bool) (vs : List V3) (a : Nat) (ha : a < vs.length)
+    (hm : m.getD a false = true) : sel m vs ≠ [] := by
+  induction m generalizing vs a with
+  | nil => simp at hm
+  | cons b m ih =>
+    cases vs with
+    | nil => simp at ha
+    | cons v vs =>
+      rw [sel_cons]
+      cases b with
+      | true => simp
+      | false =>
+        cases a with
+        | zero => simp at hm
+        | succ a =>
+          simp only [Bool.false_eq_true, if_false]
+          exact ih vs a (by simpa using ha) (by simpa using hm)
+
+/-- `maskFrame` commutes with "difference, then a componentwise map" -/
+theorem maskFrame_vsub_map (m : List Bool) (g : ℚ → ℚ) (a b : Frame) (ha : 3 ∣ a.length) (hb : 3 ∣ b.length) :
+    maskFrame m ((vsub a b).map g) = (vsub (maskFrame m a) (maskFrame m b)).map g := by
+  obtain ⟨A, rfl⟩ := exists_flat a ha
+  obtain ⟨B, rfl⟩ := exists_flat b hb
+  simp only [vsub, zipWith_flat, map_flat, maskFrame_eq, toV3s_flat, sel_map, sel_zipWith]
+
+theorem maskFrame_map (m : List Bool) (g : ℚ → ℚ) (a : Frame) (ha : 3 ∣ a.length) :
+    maskFrame m (a.map g) = (maskFrame m a).map g := by
+  obtain ⟨A, rfl⟩ := exists_flat a ha
+  simp only [map_flat, maskFrame_eq, toV3s_flat, sel_map]
+
+theorem maskFrame_zerosLike (m : List Bool) (a : Frame) (ha : 3 ∣ a.length) :
+    maskFrame m (zerosLike a) = zerosLike (maskFrame m a) :=
+  maskFrame_map m _ a ha
+
+theorem diffs_mask (m : List Bool) : ∀ (rest : List Frame) (p : Frame), 3 ∣ p.length →
+    (∀ f ∈ rest, 3 ∣ f.length) →
+    diffs (maskFrame m p) (rest.map (maskFrame m)) = (diffs p rest).map (maskFrame m) := by
+  intro rest
+  induction rest with
+  | nil => intro p _ _; rfl
+  | cons g rest ih =>
+    intro p hp hr
+    have hg : 3 ∣ g.length := hr g (by simp)
+    simp only [List.map_cons, diffs]
+    rw [ih g hg (fun f hf => hr f (List.mem_cons_of_mem _ hf)), maskFrame_vsub_map m _ g p hg hp]
+
+theorem toDispCoords_mask (m : List Bool) (P : List Frame) (h : ∀ f ∈ P, 3 ∣ f.length) :
+    toDispCoords (P.map (maskFrame m)) = (toDispCoords P).map (maskFrame m) := by
+  cases P with
+  | nil => rfl
+  | cons p rest =>
+    have hp : 3 ∣ p.length := h p (by simp)
+    simp only [List.map_cons, toDispCoords]
+    rw [diffs_mask m rest p hp (fun f hf => h f (List.mem_cons_of_mem _ hf)), maskFrame_zerosLike m p hp]
+
+/-! ### `subDrift` -/
+
+theorem subDrift_eq (f : Frame) (d : V3) : subDrift f d = flat ((toV3s f).map (fun v => v - d)) := by
+  simp [subDrift, flat, List.flatMap_map]
+
+theorem v3_sub_zero (v : V3) : v - V3.zero = v := by
+  cases v
+  show V3.mk _ _ _ = _
+  simp [V3.zero]
+
+theorem subDrift_zero (f : Frame) (h : 3 ∣ f.length) : subDrift f V3.zero = f := by
+  rw [subDrift_eq]
+  have : (toV3s f).map (fun v => v - V3.zero) = toV3s f := by
+    conv_rhs => rw [← List.map_id (toV3s f)]
+    apply List.map_congr_left
+    intro v _
+    exact v3_sub_zero v
+  rw [this, flat_toV3s f h]
+
+theorem length_subDrift (f : Frame) (d : V3) (h : 3 ∣ f.length) : (subDrift f d).length = f.length := by
+  obtain ⟨A, rfl⟩ := exists_flat f h
+  rw [subDrift_eq, toV3s_flat, flat_length, flat_length, List.length_map]
+
+theorem maskFrame_subDrift (m : List Bool) (f : Frame) (d : V3) :
+    maskFrame m (subDrift f d) = flat ((sel m (toV3s f)).map (fun v => v - d)) := by
+  rw [maskFrame_eq, subDrift_eq, toV3s_flat, sel_map]
+
+/-! ### round trip through wrapped positions -/
+
+theorem roundtrip_step (base acc g : Frame) (n : Nat) (hb : base.length = n) (ha : acc.length = n)
+    (hg : g.length = n) (hs : ∀ v ∈ g, |v| < 1 / 2) :
+    (vsub ((vadd base (vadd acc g)).map wrap) ((vadd base acc).map wrap)).map minImg1 = g := by
+  have hag : (vadd acc g).length = n := by rw [length_vadd, ha, hg]; simp
+  have h1 : (vadd base (vadd acc g)).length = n := by rw [length_vadd, hb, hag]; simp
+  have h2 : (vadd base acc).length = n := by rw [length_vadd, hb, ha]; simp
+  have h3 : (vsub ((vadd base (vadd acc g)).map wrap) ((vadd base acc).map wrap)).length = n := by
+    rw [length_vsub]; simp [h1, h2]
+  apply ext_getD _ _ n (by simpa using h3) hg
+  intro j hj
+  rw [getD_map _ _ _ (by rw [h3]; exact hj),
+    getD_vsub _ _ _ (by simpa [h1] using hj) (by simpa [h2] using hj),
+    getD_map _ _ _ (by rw [h1]; exact hj), getD_map _ _ _ (by rw [h2]; exact hj),
+    getD_vadd _ _ _ (hb ▸ hj) (by rw [hag]; exact hj), getD_vadd _ _ _ (ha ▸ hj) (hg ▸ hj),
+    getD_vadd _ _ _ (hb ▸ hj) (ha ▸ hj)]
+  obtain ⟨k1, hk1⟩ := wrap_congr (base.getD j 0 + (acc.getD j 0 + g.getD j 0))
+  obtain ⟨k2, hk2⟩ := wrap_congr (base.getD j 0 + acc.getD j 0)
+  have hsm : |g.getD j 0| < 1 / 2 := by
+    rw [getD_eq _ _ _ (hg ▸ hj)]
+    exact hs _ (List.getElem_mem _)
+  rw [hk1, hk2]
+  have e : base.getD j 0 + (acc.getD j 0 + g.getD j 0) + (k1 : ℚ) - (base.getD j 0 + acc.getD j 0 + (k2 : ℚ))
+      = g.getD j 0 + ((k1 - k2 : ℤ) : ℚ) := by push_cast; ring
+  rw [e, minImg1_small_shift _ _ hsm]
+
+theorem roundtrip_diffs (base : Frame) (n : Nat) (hb : base.length = n) :
+    ∀ (rest : List Frame) (acc : Frame), acc.length = n → Rect rest n →
+      (∀ f ∈ rest, ∀ v ∈ f, |v| < 1 / 2) →
+      diffs ((vadd base acc).map wrap) (((cumsumFrom acc rest).map (vadd base)).map (·.map wrap)) = rest := by
+  intro rest
+  induction rest with
+  | nil => intro acc _ _ _; rfl
+  | cons g rest ih =>
+    intro acc ha hr hs
+    have hg : g.length = n := hr g (by simp)
+    have hag : (vadd acc g).length = n := by rw [length_vadd, ha, hg]; simp
+    simp only [cumsumFrom, List.map_cons, diffs]
+    rw [roundtrip_step base acc g n hb ha hg (hs g (by simp)),
+      ih (vadd acc g) hag (fun f hf => hr f (List.mem_cons_of_mem _ hf))
+        (fun f hf => hs f (List.mem_cons_of_mem _ hf))]
+
+/-- **round trip**: a well-formed displacement-mode state whose steps are all below half a cell is
+recovered exactly when its displacements are re-derived from its wrapped positions. -/
+theorem roundtrip (n : Nat) (c : TState) (h : G.C15.WF n c) (hd : c.disp = true)
+    (hs : ∀ f ∈ c.coords, ∀ v ∈ f, |v| < 1 / 2) : toDispCoords (absPos c) = c.coords := by
+  obtain ⟨dsp, coords, base⟩ := c
+  obtain ⟨hb, hr, hne, _, hz⟩ := h
+  simp only at hd
+  subst hd
+  cases coords with
+  | nil => exact absurd rfl hne
+  | cons z rest =>
+    have hb : base.length = n := hb
+    have hzl : z.length = n := hr z (by simp)
+    have hz0 : ∀ v ∈ z, v = 0 := hz rfl
+    have hbz : vadd base z = base := G.C15.vadd_zero_right base z (by rw [hzl]; exact hb) hz0
+    rw [G.C15.absPos_of_disp _ rfl]
+    simp only [cumsum, cumsumFrom, vadd_zerosLike_left, List.map_cons, toDispCoords]
+    rw [roundtrip_diffs base n hb rest z hzl (fun f hf => hr f (List.mem_cons_of_mem _ hf))
+      (fun f hf => hs f (List.mem_cons_of_mem _ hf))]
+    congr 1
+    apply ext_getD _ _ n (by rw [length_zerosLike, hbz]; simpa using hb) hzl
+    intro j hj
+    rw [getD_zerosLike, getD_eq _ _ _ (hzl ▸ hj), hz0 _ (List.getElem_mem _)]
+
+/-! ### the corrected state -/
+
+theorem zipWith_map_right_self {α β γ : Type} (f : α → β → γ) (g : α → β) (l : List α) :
+    List.zipWith f l (l.map g) = l.map (fun x => f x (g x)) := by
+  induction l with
+  | nil => rfl
+  | cons a l ih => simp [ih]
+
+theorem zipWith_subDrift_zero : ∀ (C : List Frame) (zs : List V3), zs.length = C.length →
+    (∀ v ∈ zs, v = V3.zero) → (∀ f ∈ C, 3 ∣ f.length) → List.zipWith subDrift C zs = C := by
+  intro C
+  induction C with
+  | nil => intro zs _ _ _; simp
+  | cons f C ih =>
+    intro zs hl hz h3
+    cases zs with
+    | nil => simp at hl
+    | cons v zs =>
+      rw [List.zipWith_cons_cons, hz v (by simp), subDrift_zero f (h3 f (by simp)),
+        ih zs (by simpa using hl) (fun v hv => hz v (List.mem_cons_of_mem _ hv))
+          (fun f hf => h3 f (List.mem_cons_of_mem _ hf))]
+
+theorem length_diffs : ∀ (rest : List Frame) (p : Frame), (diffs p rest).length = rest.length := by
+  intro rest
+  induction rest with
+  | nil => intro p; rfl
+  | cons g rest ih => intro p; simp [diffs, ih]
+
+theorem length_toDispCoords (P : List Frame) : (toDispCoords P).length = P.length := by
+  cases P with
+  | nil => rfl
+  | cons p rest => simp [toDispCoords, length_diffs]
+
+/-- subtracting, frame by frame, a vector that vanishes on zero frames keeps a displacement-mode
+state well formed -/
+theorem wf_sub (n : Nat) (s' : TState) (μ : Frame → V3) (hμ : ∀ f, (∀ v ∈ f, v = 0) → μ f = V3.zero)
+    (h : G.C15.WF n s') (hd : s'.disp = true) (h3 : 3 ∣ n) :
+    G.C15.WF n ⟨true, s'.coords.map (fun f => subDrift f (μ f)), s'.base⟩ := by
+  obtain ⟨hb, hr, hne, _, hz⟩ := h
+  refine ⟨hb, ?_, by simpa using hne, fun h => by simp at h, fun _ => ?_⟩
+  · intro g hg
+    obtain ⟨f, hf, rfl⟩ := List.mem_map.mp hg
+    rw [length_subDrift _ _ (by rw [hr f hf]; exact h3)]
+    exact hr f hf
+  · cases hc : s'.coords with
+    | nil => exact absurd hc hne
+    | cons z rest =>
+      have hz0 : ∀ v ∈ z, v = 0 := by
+        have := hz hd
+        rw [hc] at this
+        exact this
+      have hzl : z.length = n := hr z (by rw [hc]; simp)
+      simp only [List.map_cons, List.headD_cons]
+      rw [hμ z hz0, subDrift_zero z (by rw [hzl]; exact h3)]
+      exact hz0
+
+theorem toDisplacements_toPositions (s : TState) :
+    toDisplacements (toPositions s) = ⟨true, toDispCoords (absPos s), s.base⟩ := rfl
+
+theorem applyDrift_some_raw (m : List Bool) (s : TState) :
+    (applyDrift (some m) s).2 = ⟨true, List.zipWith subDrift (toDispCoords (absPos s))
+      ((toDispCoords ((absPos s).map (maskFrame m))).map meanAll), s.base⟩ := rfl
+
+theorem driftSel_raw (m : List Bool) (s : TState) :
+    (driftSel m s).2 = (toDispCoords ((absPos s).map (maskFrame m))).map meanAll := rfl
+
+theorem absPos_rect3 (n : Nat) (s : TState) (h : G.C15.WF n s) (h3 : 3 ∣ n) :
+    ∀ f ∈ absPos s, 3 ∣ f.length := by
+  intro f hf
+  rw [(G.C15.toPositions_wf n s h).2.1 f hf]
+  exact h3
+
+/-- the corrected trajectory in closed form: every displacement frame minus the mean displacement
+of its selected atoms -/
+theorem applyDrift_some_eq (n : Nat) (m : List Bool) (s : TState) (h : G.C15.WF n s) (h3 : 3 ∣ n) :
+    (applyDrift (some m) s).2 = ⟨true, (toDispCoords (absPos s)).map
+      (fun f => subDrift f (meanAll (maskFrame m f))), s.base⟩ := by
+  rw [applyDrift_some_raw, toDispCoords_mask m _ (absPos_rect3 n s h h3), List.map_map,
+    zipWith_map_right_self]
+  rfl
+
+theorem applyDrift_none_eq (s : TState) :
+    (applyDrift none s).2 = ⟨true, (toDisplacements s).coords.map (fun f => subDrift f (meanAll f)), s.base⟩ := by
+  obtain ⟨d, c, b⟩ := s
+  cases d
+  · show TState.mk true (List.zipWith subDrift (toDispCoords c) ((toDispCoords c).map meanAll)) b = _
+    rw [zipWith_map_right_self]
+    rfl
+  · show TState.mk true (List.zipWith subDrift c (c.map meanAll)) b = _
+    rw [zipWith_map_right_self]
+    rfl
+
+theorem toDisplacements_disp (s : TState) : (toDisplacements s).disp = true := by
+  obtain ⟨d, c, b⟩ := s
+  cases d <;> rfl
+
+theorem toDisplacements_base (s : TState) : (toDisplacements s).base = s.base := by
+  obtain ⟨d, c, b⟩ := s
+  cases d <;> rfl
+
+theorem corrected_wf (n : Nat) (mask : Option (List Bool)) (s : TState) (h : G.C15.WF n s) (h3 : 3 ∣ n) :
+    G.C15.WF n (applyDrift mask s).2 := by
+  cases mask with
+  | some m =>
+    rw [applyDrift_some_eq n m s h h3]
+    have hw := G.C15.toDisplacements_wf n _ (G.C15.toPositions_wf n s h)
+    exact wf_sub n (toDisplacements (toPositions s)) (fun f => meanAll (maskFrame m f))
+      (fun f hf => meanAll_zero _ (fun v hv => hf v (G.C15.mem_maskFrame m f v hv))) hw rfl h3
+  | none =>
+    rw [applyDrift_none_eq]
+    have hw := G.C15.toDisplacements_wf n s h
+    have := wf_sub n (toDisplacements s) meanAll (fun f hf => meanAll_zero f hf) hw
+      (toDisplacements_disp s) h3
+    rwa [toDisplacements_base] at this
+
+/-- a well-formed state starts at its base position modulo 1 -/
+theorem absPos_head (n : Nat) (s : TState) (h : G.C15.WF n s) :
+    (absPos s).head? = some (s.base.map wrap) := by
+  obtain ⟨hb, _, hne, hp, _⟩ := G.C15.toPositions_wf n s h
+  have hwr := G.C15.wrapped_absPos s
+  change (toPositions s).coords.head? = _
+  change ∀ f ∈ (toPositions s).coords, ∀ v ∈ f, wrap v = v at hwr
+  cases hc : (toPositions s).coords with
+  | nil => exact absurd hc hne
+  | cons q rest =>
+    have hcong : G.C15.Cong (toPositions s).base q := by
+      have := hp rfl
+      rw [hc] at this
+      exact this
+    have hq : q.map wrap = q := G.C15.map_wrap_of_wrapped q (hwr q (by rw [hc]; simp))
+    have hm := (hcong.to01 hb).map_wrap
+    rw [List.head?_cons, ← hq, ← hm]
+    rfl
 
 /-! ## end to end -/
 
@@ -57,15 +559,42 @@ base positions. -/
 theorem corrected_shape (mask : Option (List Bool)) (s : TState) :
     (applyDrift mask s).2.disp = true ∧ (applyDrift mask s).2.base = (displacements (match mask with
       | some m => (driftSel m s).1 | none => (driftAll s).1)).1.base := by
-  sorry
+  cases mask with
+  | some m => exact ⟨rfl, rfl⟩
+  | none => exact ⟨rfl, rfl⟩
 
 theorem corrected_base (mask : Option (List Bool)) (s : TState) : (applyDrift mask s).2.base = s.base := by
-  sorry
+  cases mask with
+  | some m => rfl
+  | none => rw [applyDrift_none_eq]
 
-/-- **C13 (first frame)**: the first frame of the corrected trajectory is the first frame of the source. -/
+/- ORIGINAL STATEMENT (FALSE as written: for `n` not a multiple of 3 `subDrift` drops the trailing
+`n % 3` coordinates of every frame, so the corrected frames are shorter than the source frames):
+
 theorem first_frame_unchanged (n : Nat) (mask : Option (List Bool)) (s : TState) (h : G.C15.WF n s) :
+    (absPos (applyDrift mask s).2).head? = (absPos s).head?
+
+Counterexample (`n = 1`): see `first_frame_unchanged_counterexample` below. -/
+
+/-- the original `first_frame_unchanged` (without `3 ∣ n`) fails: a one-coordinate frame is
+well formed for `n = 1`, but the corrected first frame is empty -/
+theorem first_frame_unchanged_counterexample :
+    G.C15.WF 1 (fresh [[1/2]]) ∧
+    (absPos (applyDrift none (fresh [[1/2]])).2).head? = some [] ∧
+    (absPos (fresh [[1/2]])).head? = some [1/2] := by
+  refine ⟨G.C15.fresh_wf _ 1 ?_ (by simp), by decide +kernel, by decide +kernel⟩
+  intro f hf
+  simp at hf
+  subst hf
+  rfl
+
+/-- **C13 (first frame)**: the first frame of the corrected trajectory is the first frame of the
+source — for frames that consist of whole atoms (`3 ∣ n`; this hypothesis is necessary, see
+`first_frame_unchanged_counterexample`). -/
+theorem first_frame_unchanged_partial (n : Nat) (mask : Option (List Bool)) (s : TState)
+    (h : G.C15.WF n s) (h3 : 3 ∣ n) :
     (absPos (applyDrift mask s).2).head? = (absPos s).head? := by
-  sorry
+  rw [absPos_head n _ (corrected_wf n mask s h h3), absPos_head n s h, corrected_base]
 
 /-- the selection picks at least one atom of an `n/3`-atom frame -/
 def NonEmptySel (mask : List Bool) (n : Nat) : Prop := ∃ a, a < n / 3 ∧ mask.getD a false = true
@@ -74,18 +603,59 @@ def NonEmptySel (mask : List Bool) (n : Nat) : Prop := ∃ a, a < n / 3 ∧ mask
 def SmallSteps (mask : List Bool) (s : TState) : Prop :=
   ∀ f ∈ (applyDrift (some mask) s).2.coords, ∀ v ∈ f, |v| < 1 / 2
 
+/-- under `SmallSteps` the displacements re-derived from the corrected trajectory's wrapped
+positions are exactly its stored displacements -/
+theorem corrected_roundtrip (n : Nat) (mask : List Bool) (s : TState) (h : G.C15.WF n s) (h3 : 3 ∣ n)
+    (hsmall : SmallSteps mask s) :
+    toDispCoords (absPos (applyDrift (some mask) s).2) = (applyDrift (some mask) s).2.coords :=
+  roundtrip n _ (corrected_wf n (some mask) s h h3) rfl hsmall
+
 /-- **C13 (residual drift)**: after correction with respect to a non-empty reference selection the
 mean per-frame displacement of that selection is zero in every frame. -/
 theorem residual_drift_zero (n : Nat) (mask : List Bool) (s : TState) (h : G.C15.WF n s) (h3 : 3 ∣ n)
     (hsel : NonEmptySel mask n) (hsmall : SmallSteps mask s) :
     ∀ v ∈ (driftSel mask (applyDrift (some mask) s).2).2, v = V3.zero := by
-  sorry
+  have hw := corrected_wf n (some mask) s h h3
+  rw [driftSel_raw, toDispCoords_mask _ _ (absPos_rect3 n _ hw h3),
+    corrected_roundtrip n mask s h h3 hsmall, applyDrift_some_eq n mask s h h3]
+  intro v hv
+  simp only [List.map_map, List.mem_map, Function.comp] at hv
+  obtain ⟨f, hf, rfl⟩ := hv
+  have hfl : f.length = n :=
+    (G.C15.toDisplacements_wf n _ (G.C15.toPositions_wf n s h)).2.1 f hf
+  rw [maskFrame_subDrift, meanAll_eq, toV3s_flat, meanAll_eq, toV3s_maskFrame]
+  apply meanV_sub_meanV
+  obtain ⟨a, ha, hm⟩ := hsel
+  obtain ⟨A, rfl⟩ := exists_flat f (by rw [hfl]; exact h3)
+  rw [toV3s_flat]
+  rw [flat_length] at hfl
+  exact sel_ne_nil mask A a (by omega) hm
+
+/-- applying the correction a second time returns the very same state -/
+theorem applyDrift_fixed (n : Nat) (mask : List Bool) (s : TState) (h : G.C15.WF n s) (h3 : 3 ∣ n)
+    (hsel : NonEmptySel mask n) (hsmall : SmallSteps mask s) :
+    (applyDrift (some mask) (applyDrift (some mask) s).2).2 = (applyDrift (some mask) s).2 := by
+  have hw := corrected_wf n (some mask) s h h3
+  have hres := residual_drift_zero n mask s h h3 hsel hsmall
+  have hrt := corrected_roundtrip n mask s h h3 hsmall
+  have hlen : (driftSel mask (applyDrift (some mask) s).2).2.length
+      = (applyDrift (some mask) s).2.coords.length := by
+    rw [driftSel_raw, List.length_map, length_toDispCoords, List.length_map, ← hrt, length_toDispCoords]
+  have h3c : ∀ f ∈ (applyDrift (some mask) s).2.coords, 3 ∣ f.length := by
+    intro f hf
+    rw [hw.2.1 f hf]
+    exact h3
+  have e : (applyDrift (some mask) (applyDrift (some mask) s).2).2
+      = ⟨true, List.zipWith subDrift (toDispCoords (absPos (applyDrift (some mask) s).2))
+          (driftSel mask (applyDrift (some mask) s).2).2, (applyDrift (some mask) s).2.base⟩ := rfl
+  rw [e, hrt, zipWith_subDrift_zero _ _ hlen hres h3c]
+  rfl
 
 /-- **C13 (idempotent)**: applying the correction again changes nothing. -/
 theorem idempotent (n : Nat) (mask : List Bool) (s : TState) (h : G.C15.WF n s) (h3 : 3 ∣ n)
     (hsel : NonEmptySel mask n) (hsmall : SmallSteps mask s) :
     absPos (applyDrift (some mask) (applyDrift (some mask) s).2).2 = absPos (applyDrift (some mask) s).2 := by
-  sorry
+  rw [applyDrift_fixed n mask s h h3 hsel hsmall]
 
 /-- without `SmallSteps` the statement fails: reference atom steps +3/8, the other atom −3/8, so the
 corrected step of the second atom is −3/4, which positions modulo 1 turn into +1/4 -/
